@@ -185,6 +185,78 @@ def vm_roundtrip(cfg, populated, light=False):
     return fn
 
 
+def vm_inputedit(cfg):
+    """the caller reuses its INPUT buffers: after a call it edits the transition-state array it passed in place (by an arbitrary
+    symbolic amount), then saves and reloads the calculator; the reloaded calculator must answer the ORIGINAL input like the
+    first call did and the EDITED input like a calculator that has never seen anything"""
+    def fn(src=None):
+        import copy
+        calc = hist.get_calc(cfg)
+        name = 'vm-inputedit:%s' % cfg
+        sym = src is None
+        calc.clearcache()
+        if sym:
+            ENG.uf_mode = True
+            ENG.allow_hash = True
+            calc.GFcalc_real = getattr(calc, 'GFcalc_real', calc.GFcalc)
+            x = list(hist.sym_inputs(calc, 'x'))
+            x[0] = np.zeros(len(calc.sitelist))
+            x[1] = np.zeros(len(calc.sitelist))
+            d = core.Sym(core.z3.Real('dedit'))
+            ENG.assume(d >= 0.125)
+            ENG.assume(d <= 4)
+            inputs = hist.input_dict(x[2:])
+            inputs['dedit'] = d
+            ctx = shim.symbolic_mode()
+        else:
+            v = src.vals
+            x = list(hist.conc_inputs(calc, dict(**{**_zeros(calc, 'x'), **v}), 'x'))
+            d = float(v.get('dedit', 1.0))
+            inputs = {}
+            import contextlib
+            ctx = contextlib.nullcontext()
+        info = {'inputs': inputs, 'replayer': 'vminputedit', 'extra': {'cfg': cfg}}
+        if sym:
+            info['probe'] = hist.probes(inputs)
+            info['probe_first'] = True
+        obs = []
+
+        def ob(n, val):
+            obs.append(('%s:%s' % (name, n), val, dict(info, sig='vm-inputedit:' + n)))
+        with ctx:
+            real_gf = getattr(calc, 'GFcalc_real', calc.GFcalc)
+            calc.GFcalc = hist.GFstub(calc) if sym else real_gf
+            fresh = copy.deepcopy(calc)
+            if sym:
+                fresh.GFcalc = hist.GFstub(fresh)
+            x_orig = [np.array(a_, dtype=object if sym else float).copy() for a_ in x]
+            if sym:
+                x_orig = [shim.SymArray(list(a_)) if a_.dtype == object else a_ for a_ in x_orig]
+            L1 = hist.snapshot(calc.Lij(*x))
+            # the caller's own buffer (the omega0 transition-state energies it passed) is edited in place
+            for k in range(len(x[3])):
+                x[3][k] = x[3][k] + d
+            stub = calc.GFcalc
+            calc.GFcalc = real_gf
+            store = new_store()
+            calc.addhdf5(store.create_group('D') if REPLAY else store)
+            calc.GFcalc = stub
+            copy_ = OnsagerCalc.VacancyMediated.loadhdf5(store['D'] if REPLAY else store)
+            if sym:
+                copy_.GFcalc = stub
+            Lo = copy_.Lij(*x_orig)
+            for n, t in enumerate(hist.TENSORS):
+                ob('original-input-%s' % t, same_tensor(Lo[n], L1[n], sym))
+            ref = hist.snapshot(fresh.Lij(*x))
+            Le = copy_.Lij(*x)
+            for n, t in enumerate(hist.TENSORS):
+                ob('edited-input-%s' % t, same_tensor(Le[n], ref[n], sym))
+            if sym:
+                obs.append(('twin:%s' % name, same_tensor(Le[0], L1[0], True)))
+        return obs
+    return fn
+
+
 def _zeros(calc, tag):
     d = {}
     for nm, n in (('bFV', len(calc.sitelist)), ('bFS', len(calc.sitelist)), ('bFSV', calc.thermo.Nstars), ('bFT0', len(calc.om0_jn)),
@@ -449,6 +521,8 @@ def sections(tier):
                           maxpaths=64, timeout_ms=20000))
         if cfg != 'rumple2d-s':     # (its two-class network does not percolate: the real Green-function calculator refuses it)
             secs.append(S('struct:' + cfg, struct_roundtrip(cfg), budget_s=bud, replayer='struct', config=cfg, maxpaths=2))
+    for cfg in (('square-1',) if tier == 'quick' else ('square-1', 'rect2-1', 'sc-1')):
+        secs.append(S('vm-inputedit:' + cfg, vm_inputedit(cfg), budget_s=bud, replayer='vminputedit', config=cfg, maxpaths=64, timeout_ms=20000))
     for case in (0, 1):
         secs.append(S('helpers:%d' % case, helper_laws(case), budget_s=bud, replayer='helpers', config='helpers', maxpaths=3000, timeout_ms=20000))
     for dim in (3, 2):
@@ -462,6 +536,7 @@ def main():
     if REPLAY:
         run.replay_main('C13', {
             'cache': lambda rec: harness.run_laws_concrete(cache_roundtrip(rec['extra']['cfg']), rec),
+            'vminputedit': lambda rec: harness.run_laws_concrete(vm_inputedit(rec['extra']['cfg']), rec),
             'vm': lambda rec: harness.run_laws_concrete(vm_roundtrip(rec['extra']['cfg'], rec['extra']['populated'], rec['extra'].get('light', False)), rec),
             'helpers': lambda rec: harness.run_laws_concrete(helper_laws(rec['extra']['case']), rec),
             'taylor': lambda rec: harness.run_laws_concrete(taylor_roundtrip(rec['extra']['dim']), rec),
